@@ -37,6 +37,7 @@ type Config struct {
 	Trace      bool              `json:"trace"`
 	EmbedDirs  map[string]string `json:"embed_dirs"` // package path -> directory whose files serve embed.FS reads
 	Params     map[string]int    `json:"params"`     // harness parameters (zzsym.Param)
+	Modfile    string            `json:"modfile"`    // alternative go.mod (a scratch copy), so that loading never rewrites the tree's go.mod
 
 	MaxPaths     int `json:"max_paths"`
 	MaxDecisions int `json:"max_decisions"`
@@ -112,6 +113,9 @@ func Load(cfg *Config) (*Program, error) {
 		Dir:     cfg.Dir,
 		Overlay: overlay,
 		Env:     append(os.Environ(), "GOFLAGS=-mod=mod", "GOPROXY=off", "CGO_ENABLED=0"),
+	}
+	if cfg.Modfile != "" {
+		pcfg.BuildFlags = []string{"-modfile=" + cfg.Modfile}
 	}
 	pkgs, err := packages.Load(pcfg, cfg.Patterns...)
 	if err != nil {
